@@ -91,14 +91,29 @@ def check_mailbox_wait(run, world, mod, fn, cfg, Q, RULE):
     if ev is None:
         raise AnalysisError("%s: registration of (event, messages) in "
                             "self._outstanding not found" % Q)
+    # other names for the same two objects (`with slot() as (event,
+    # messages)`: the names bound from the helper's locals)
+    evs, mss = {ev}, {ms}
+    for _ in range(3):
+        for n_ in ast.walk(fn):
+            if isinstance(n_, ast.Assign) and len(n_.targets) == 1 and \
+                    isinstance(n_.targets[0], ast.Name) and isinstance(
+                        n_.value, ast.Name):
+                if n_.value.id in evs:
+                    evs.add(n_.targets[0].id)
+                if n_.value.id in mss:
+                    mss.add(n_.targets[0].id)
     Wc = forward_worlds(cfg, kill_conds_on_assign, cond_edge_transfer())
     waits = [n_ for n_ in cfg.reachable if n_.ast is not None and n_.kind in (
-        "stmt", "test") and "%s.wait()" % ev in unparse(n_.ast, 300)]
+        "stmt", "test") and any("%s.wait()" % e_ in unparse(n_.ast, 300)
+                                for e_ in evs)]
     run.floor("tridonic sender waits on its event", len(waits), 1)
-    empty = [("cond", "len(%s) == 0" % ms, True), ("cond", ms, False),
-             ("cond", "len(%s)" % ms, False),
-             ("cond", "len(%s) != 0" % ms, False),
-             ("cond", "len(%s) > 0" % ms, False)]
+    empty = []
+    for m_ in sorted(mss):
+        empty += [("cond", "len(%s) == 0" % m_, True), ("cond", m_, False),
+                  ("cond", "len(%s)" % m_, False),
+                  ("cond", "len(%s) != 0" % m_, False),
+                  ("cond", "len(%s) > 0" % m_, False)]
     for n_ in waits:
         bad = Wc.worlds_with(n_, lambda w: not any(f in w for f in empty))
         run.ob(RULE, Q + "#waits-only-on-empty-mailbox", not bad,
@@ -362,6 +377,12 @@ def _check_wake(run, repo, world, mod):
                         t.value) == "self._outstanding" for t in n.targets) \
                     and isinstance(n.value, ast.Tuple):
                 boxes |= {unparse(e) for e in n.value.elts}
+        for _ in range(3):
+            for n in ast.walk(f2):
+                if isinstance(n, ast.Assign) and len(n.targets) == 1 and \
+                        isinstance(n.targets[0], ast.Name) and isinstance(
+                            n.value, ast.Name) and n.value.id in boxes:
+                    boxes.add(n.targets[0].id)
         defs = astq._defs(f2)
         tests = []
         for n in ast.walk(f2):
